@@ -313,6 +313,35 @@ func TestC18_RoundTripExhaustive(t *testing.T) {
 	}, checkRoundTrip)
 }
 
+// TestC18_RoundTripLong: message lengths where a length field or a loop counter
+// grows a byte (31..33, 255..257, 8191..8193, 65535..65537 bytes and the largest
+// length method 3 can represent in a tiny block), for small and common block
+// sizes - the exhaustive sweep above stops at three blocks.
+func TestC18_RoundTripLong(t *testing.T) {
+	h.Sweep(t, h.P{Name: "roundtrip-long"}, func(emit func(rtCase)) {
+		lens := []int{31, 32, 33, 63, 64, 65, 127, 128, 129, 255, 256, 257, 511, 512, 513, 1023, 1024, 1025, 4095, 4096, 4097, 8191, 8192, 8193, 65535, 65536, 65537}
+		i := 0
+		for _, bs := range []int{1, 2, 3, 4, 5, 6, 7, 8, 9, 15, 16, 17, 24, 32, 64, 128, 255} {
+			for s := 0; s < 4; s++ {
+				for _, n := range lens {
+					if schemeNames[s] == "iso9797m3" && !fitsM3(bs, n) {
+						continue
+					}
+					emit(rtCase{s, bs, n, i % 6, []int{0, 1, bs, 4 * bs}[i%4], h.Seed})
+					i++
+				}
+				if schemeNames[s] == "iso9797m3" && bs < 8 {
+					// the largest representable message: bit length 2^(8*bs) - 1 rounded down to bytes
+					if max := (1<<(8*uint(bs)) - 1) / 8; max <= 1<<21 {
+						emit(rtCase{s, bs, max, 0, 0, h.Seed})
+						emit(rtCase{s, bs, max - 1, 0, 1, h.Seed})
+					}
+				}
+			}
+		}
+	}, checkRoundTrip)
+}
+
 // ---------------------------------------------------------------- accept set
 
 type accCase struct {
